@@ -88,6 +88,8 @@ func (r *Reader) readBlock() error {
 			zstdReader, err := zstd.NewReader(nil,
 				zstd.WithDecoderConcurrency(1),
 				zstd.WithDecoderLowmem(true),
+				// Block can't be bigger than maxDataSize, see readBlock.
+				zstd.WithDecoderMaxMemory(maxDataSize),
 			)
 			if err != nil {
 				return errors.Wrap(err, "zstd")
